@@ -232,7 +232,6 @@ pub fn external_components(
     let mut comp = Table::new("completion");
     let mut s2 = Table::new("simp_classic");
     // private sets the code may ask about: each program's own private predicates
-    let _ = spec_preds;
     for p in programs {
         tight.push(l(vec![conv::program(p), conv::boolean(p.is_tight())]));
         let private: IndexSet<asp::Predicate> = p
@@ -259,11 +258,19 @@ pub fn external_components(
         }
     }
     // since /repo 70e6ace (finding F17) theory_translate appends the empty completed definition of every
-    // output predicate that does not occur in the completed theory, before the simplification:
-    // the simplification table covers them (for every declared output predicate; built here, not
-    // taken from the code, so that the harness compiles against trees without the repair - the
-    // comparison of decompose() with the model is what ties the formula to the code)
-    let empty: Vec<fol::Formula> = ug.output_predicates().iter().map(empty_definition).collect();
+    // output predicate that does not occur in the completed theory, before the simplification; since
+    // /repo 18b2e85 only for those that occur on some side of the task (`occurring_predicates`: the
+    // predicates of the programs and of the specification) - the formula's size is proportional to
+    // the declared arity, so a declaration like `output: q/9223372036854775806.` must not get one.
+    // The simplification table covers them (for every declared output predicate that occurs in the
+    // task; built here, not taken from the code, so that the harness compiles against trees without
+    // the repair - the comparison of decompose() with the model is what ties the formula to the code)
+    let mut occurring: IndexSet<fol::Predicate> = spec_preds.unwrap_or_default();
+    for p in programs {
+        occurring.extend(p.predicates().into_iter().map(fol::Predicate::from));
+    }
+    let empty: Vec<fol::Formula> =
+        ug.output_predicates().iter().filter(|p| occurring.contains(*p)).map(empty_definition).collect();
     simplify_theory(&fol::Theory { formulas: empty }, &portfolio_classic(), &mut s2)?;
     Some(tagged(
         "components",
